@@ -22,3 +22,30 @@ Fixpoint stack_run (pushes pops : N -> bool) (tr : list event) (st : list N) : o
       else stack_run pushes pops tr' st
     end
   end.
+
+(* ---- the push / pop / pruning sites of astbuilder.ModuleVistor, regenerated into Gen/SkipSites.v ---- *)
+From Coq Require Import String.
+Inductive site_ev := EvPush | EvPop | EvSkipNode | EvSkipChildren | EvSkipSiblings | EvSkipDeparture.
+
+Definition is_push (e : site_ev) : bool := match e with EvPush => true | _ => false end.
+Definition is_pop (e : site_ev) : bool := match e with EvPop => true | _ => false end.
+Definition skips_departure (e : site_ev) : bool :=
+  match e with EvSkipNode | EvSkipDeparture => true | _ => false end.
+
+(* a visit_* method: once it has pushed a scope it must not raise an exception that suppresses its
+   depart_* (which is where the pop happens); it pushes at most ... lexically any number of alternative
+   push sites is fine.  A depart_* method: pops, never pushes, never prunes. *)
+Fixpoint no_skip_after_push (pushed : bool) (l : list site_ev) : bool :=
+  match l with
+  | [] => true
+  | e :: l' =>
+    if pushed && skips_departure e then false
+    else no_skip_after_push (pushed || is_push e) l'
+  end.
+
+Definition is_depart (name : string) : bool := String.prefix "depart_" name.
+
+Definition site_ok (s : string * list site_ev) : bool :=
+  let (name, evs) := s in
+  if is_depart name then forallb is_pop evs && negb (match evs with [] => true | _ => false end)
+  else forallb (fun e => negb (is_pop e)) evs && no_skip_after_push false evs.
